@@ -15,9 +15,9 @@ SPEC = dict(
          "mode c12contact: HuntCrossleyForce scenes with 1-4 spheres (multi-contact) and single sphere, ElasticFoundationForce mesh "
          "scenes, frictionless ExponentialSpringForce (= its normal part; record expnPE with the reported PE), Hertz contacts of "
          "CompliantContactSubsystem (1-4 contacts), CableSpring, mesh and brick contacts of CompliantContactSubsystem (predicates only). "
-         "Forces and PE are compared with the model; the P lines compare the delivered power with the central difference (h=1e-6) of "
-         "the reported PE along q +- h*qdot (tolerance 1e-6*scale: truncation O(h^2), rounding eps/h ~1e-10 relative; a wrong factor "
-         "gives O(1)); for MobilityLinearStop, HuntCrossley and ElasticFoundation the *value* of the dissipation term is a record of "
+         "Forces and PE are compared with the model; the P lines compare the delivered power with the Richardson-extrapolated central "
+         "difference (steps h and h/2, h=1e-6) of the reported PE along q +- h*qdot (tolerance 1e-6*scale + the measured O(h^2) "
+         "truncation term |D(h)-D(h/2)|; rounding eps/h ~1e-10 relative; a wrong factor gives O(1)); for MobilityLinearStop, HuntCrossley and ElasticFoundation the *value* of the dissipation term is a record of "
          "its own (dissStop/dissHC/dissEF: model = power + jet derivative of the coded PE, implementation = power + finite "
          "difference; compared with atol 2e-6*power scale, so max_rel_diff_seen of these records is not meaningful); "
          "distinct = distinct input records",
